@@ -545,3 +545,44 @@ def huge_cases(layout):
         toks += [[f".algorithms[{i}]", "TPM_ALG_ID", algs[i % len(algs)]] for i in range(n)]
         out.append(Case("TPML_ALG", toks, layout, meta={"lists": [("list[TPM_ALG_ID]", n)], "flags": ["huge"]}))
     return out
+
+
+class FixedChooser:
+    """Deterministic chooser (always the first / lowest option) for hand-shaped encodings."""
+
+    def int(self, lo, hi):
+        return lo
+
+    def choice(self, seq):
+        return list(seq)[0]
+
+    def bool(self):
+        return False
+
+    def chance(self, num, den):
+        return False
+
+    def bytes(self, n):
+        return bytes(n)
+
+
+def huge_messages(layout):
+    """Well-formed GetRandom responses with one session whose randomBytes buffer is very long (so that events follow the
+    long buffer): 4096, 65534 and 65535 bytes (the UINT16 limit; the message exceeds 64 KiB)."""
+    out = []
+    for n in (4096, 65534, 65535):
+        b = Builder(layout, FixedChooser(), big=False, rare=False)
+        toks, meta = b.response("GetRandom", 1, enc=False, failed=False)
+        i = next(k for k, t in enumerate(toks) if t[0] == ".parameters.randomBytes.size")
+        j = next(k for k, t in enumerate(toks) if t[0] == ".parameters.randomBytes.buffer")
+        k = j + 1
+        while k < len(toks) and toks[k][0].startswith(".parameters.randomBytes.buffer["):
+            k += 1
+        old = k - j - 1
+        toks[i][2] = n
+        toks[j + 1 : k] = [[f".parameters.randomBytes.buffer[{x}]", "BYTE", (x * 13 + n) & 0xFF] for x in range(n)]
+        for t in toks:
+            if t[0] in (".parameterSize", ".responseSize"):
+                t[2] += n - old
+        out.append(Case("Response", toks, layout, cc=layout.commands["GetRandom"]["code"], enc=False, meta={"cc_name": "GetRandom", "sessions": 1, "failed": False, "flags": ["huge"], "lists": [("list[BYTE]", n)]}))
+    return out
